@@ -4,10 +4,13 @@ import (
 	"os"
 	"testing"
 
+	"github.com/tigerwill90/fox"
+
 	"verif/harness/sym"
 )
 
 func init() {
+	fox.VerifHook = sym.Hook
 	nativeAllocs = func(f func()) float64 { return testing.AllocsPerRun(20, f) }
 }
 
